@@ -29,6 +29,8 @@ type state struct {
 	prev     int64
 	mr       *miner.Round
 	zlab     map[int64]int
+	mb2T     int   // a second magic block (same miners, this T, NO DKG of its own) starting at round mb2S; 0 = none
+	mb2S     int64
 }
 
 func (s *state) close() {
@@ -63,7 +65,13 @@ func (s *state) newFix(genesisSeed int64) bool {
 	if s.self >= 0 {
 		selfIdx = s.self
 	}
-	s.fix = minerfix.New(minerfix.Opts{N: len(idx), T: s.w.T, Self: selfIdx, ThresholdByCount: 66, Keys: keys, GenesisSeed: genesisSeed})
+	o := minerfix.Opts{N: len(idx), T: s.w.T, Self: selfIdx, ThresholdByCount: 66, Keys: keys, GenesisSeed: genesisSeed}
+	if s.mb2T > 0 {
+		o.Pools = [][]int{idx, idx}
+		o.PoolT = []int{s.w.T, s.mb2T}
+		o.PoolStart = []int64{0, s.mb2S}
+	}
+	s.fix = minerfix.New(o)
 	for k := range idx {
 		if s.fix.Nodes[k].GetKey() != s.w.MinerIDs[k] {
 			return false // the party's miner id must be the node id (= hash of the node's public key)
@@ -119,6 +127,14 @@ func (s *state) step(ws []string) string {
 			s.self = k
 		}
 		s.hasChain = true
+		return "ok"
+	case ws[0] == "mb2" && len(ws) == 3:
+		t2, e1 := strconv.Atoi(ws[1])
+		st, e2 := strconv.ParseInt(ws[2], 10, 64)
+		if e1 != nil || e2 != nil || t2 < 1 || st < 1 {
+			return "bad-op"
+		}
+		s.mb2T, s.mb2S = t2, st
 		return "ok"
 	case ws[0] == "round" && len(ws) == 5:
 		rn, e1 := strconv.ParseInt(ws[1], 10, 64)
@@ -408,6 +424,15 @@ func genCase(r *rand.Rand, thorough bool, i int) []string {
 		tc = r.Intn(13)
 	}
 	exhaustive := n <= 7 && (thorough || n <= 4)
+	if r.Intn(4) == 0 && rn >= 8 {
+		// a newer magic block with another T is known for this round, but there is no DKG for it: the DKG in force (and
+		// its T) is still the old one
+		t2 := 1 + r.Intn(n)
+		if t2 == t {
+			t2 = 1 + (t % n)
+		}
+		g.add("mb2 %d %d", t2, rn-4-int64(r.Intn(3)))
+	}
 
 	// one delivery schedule: a list of (party, what) pairs
 	type dl struct {
@@ -424,6 +449,23 @@ func genCase(r *rand.Rand, thorough bool, i int) []string {
 			g.add("round %d %d - %s", rn, tc, h) // the previous round has no seed yet: shares are parked
 		} else {
 			g.add("round %d %d %d %s", rn, tc, prev, h)
+		}
+		if n >= 2 && r.Intn(4) == 0 {
+			// two individually invalid shares whose errors cancel: swapped shares, or s_a + P and s_b - P
+			p := r.Perm(n)
+			a, b := p[0], p[1]
+			sa := g.sig("sign %d %s", a, m)
+			sb := g.sig("sign %d %s", b, m)
+			if r.Intn(2) == 0 {
+				g.add("vshare %d %d %d", a, sb, tc)
+				g.add("vshare %d %d %d", b, sa, tc)
+			} else {
+				P := g.sig("sign %d other", a)
+				s1 := g.sig("sigadd %d %d", sa, P)
+				s2 := g.sig("sigsub %d %d", sb, P)
+				g.add("vshare %d %d %d", a, s1, tc)
+				g.add("vshare %d %d %d", b, s2, tc)
+			}
 		}
 		for x, d := range order {
 			var s int
@@ -524,7 +566,7 @@ func genCase(r *rand.Rand, thorough bool, i int) []string {
 }
 
 func genMalformed(r *rand.Rand) []string {
-	return []string{"dkg 1 1", "key n0 104", "party 0 " + cryptow.IDOfSecret("104") + " 5", "rundkg", "round 2 0 5 7", "vshare 0 0 0", "chain 9", "chain 0", "round 0 0 5 7", "round x 0 5 7", "round 2 0 5 7", "vshare 5 0 0", "vshare 0 99 0", "restart x 1", "prevseed 0 1", "frob"}
+	return []string{"dkg 1 1", "key n0 104", "party 0 " + cryptow.IDOfSecret("104") + " 5", "rundkg", "round 2 0 5 7", "vshare 0 0 0", "chain 9", "mb2 0 5", "mb2 2 x", "chain 0", "round 0 0 5 7", "round x 0 5 7", "round 2 0 5 7", "vshare 5 0 0", "vshare 0 99 0", "restart x 1", "prevseed 0 1", "frob"}
 }
 
 func genAll(r *rand.Rand, thorough bool, i int) []string {
@@ -549,6 +591,12 @@ func main() {
 			{"dkg 2 3", "key n0 101", "key n1 102", "key n2 103", "party 0 " + id("a") + " 5,7", "party 1 " + id("b") + " 11,13", "party 2 " + id("c") + " 17,19", "rundkg", "chain 0",
 				"rawmsg 203039 3", "round 2 0 12345 3", "sign 0 203039", "sign 1 203039", "sign 2 203039", "vshare 0 0 0", "vshare 0 0 0", "vshare 1 1 0", "vshare 2 2 0",
 				"round 2 0 12345 3", "vshare 2 2 0", "vshare 1 0 0", "vshare 1 1 0"},
+			// two swapped shares parked in the cache (the previous round's seed is not known yet), then flushed
+			{"dkg 2 3", "key n0 101", "key n1 102", "key n2 103", "party 0 " + id("a") + " 5,7", "party 1 " + id("b") + " 11,13", "party 2 " + id("c") + " 17,19", "rundkg", "sigzero", "chain 0",
+				"rawmsg 203039 3", "round 2 0 - 3", "sign 1 203039", "sign 2 203039", "vshare 1 2 0", "vshare 2 1 0", "prevseed 12345 3", "sign 0 203039", "vshare 0 3 0", "vshare 1 1 0"},
+			// a newer magic block with T = 1 is in force for round 20 but has no DKG: the threshold stays the DKG's (2)
+			{"dkg 2 3", "key n0 101", "key n1 102", "key n2 103", "party 0 " + id("a") + " 5,7", "party 1 " + id("b") + " 11,13", "party 2 " + id("c") + " 17,19", "rundkg", "sigzero", "chain 0",
+				"mb2 1 10", "rawmsg 2003039 3", "round 20 0 12345 3", "sign 1 2003039", "sign 2 2003039", "vshare 1 1 0", "vshare 2 2 0"},
 			// the message string is a plain concatenation: round 1 / timeout 12 and round 11 / timeout 2 sign the same string
 			{"dkg 1 1", "key n0 104", "party 0 " + id("d") + " 9", "rundkg", "chain 0", "round 1 12 255 4", "round 11 2 255 5", "rawmsg 112ff 4", "sign 0 112ff", "vshare 0 0 2"},
 		},
